@@ -14,7 +14,7 @@ META = {
     "bounds": "n=2 (quick) and n=3 (thorough) with a planted eigendecomposition A = L V(t) diag(e) V(t)^T L^T, M = L L^T "
               "(rotation V rationally parametrised, eigenvalues e1<e2(<e3) symbolic with a gap, L lower-triangular symbolic); neig in "
               "1..n, modes lowest/uppest/uppermost in mixed letter case; methods exacteig and custom_exacteig; dense-wrapped and "
-              "matrix-free operators; svd of planted 2x2, 3x2 and 2x3 matrices U diag(sigma) V^T (the factor of the larger side fixed at a rational rotation), k in 1..2, both modes",
+              "matrix-free operators; svd of planted 2x2, 3x2 and 2x3 matrices U diag(sigma) V^T (the factor of the larger side fixed at a rational rotation), k in 1..2, both modes; svd of Hermitian-FLAGGED operators with an indefinite planted spectrum V diag(+-sigma) V^T (all sign patterns, 2x2; 3x3 thorough)",
     "outside": "davidson (iterative; its residual test is a convergence statement), clustered spectra accuracy, n>3, complex "
                "(thorough tier only for n=2), rounding",
     "assumptions": ["torch.linalg.eigh / cholesky are replaced by their contracts: they return the planted factors after z3 has "
@@ -69,7 +69,10 @@ def eig(cx, n=2, neig=2, mode="lowest", method="exacteig", withM=False, opkind="
     return "ok"
 
 
-def sv(cx, shape=(2, 2), k=None, mode="uppest", method="exacteig"):
+def sv(cx, shape=(2, 2), k=None, mode="uppest", method="exacteig", herm_signs=None, opkind="dense"):
+    """herm_signs: square case only - A = V diag(signs*sigma) V^T is symmetric with eigenvalues of the given signs (indefinite
+    Hermitian operator flagged is_hermitian=True): the singular values are the MAGNITUDES of the eigenvalues, so the selection
+    must go by magnitude and the signs move into U"""
     m, n = shape
     r = min(m, n)
     # the factor that survives in the Gram matrix svd() diagonalises is symbolic; the other one is fixed at a rational
@@ -85,6 +88,11 @@ def sv(cx, shape=(2, 2), k=None, mode="uppest", method="exacteig"):
         Vm = rot3(cx.sym("qv", (4,)) if not gram_is_U else qfix)[:, :r]
     else:
         Vm = rot2(cx.sym("tv", ()) if not gram_is_U else tfix)
+    if herm_signs is not None:
+        assert m == n
+        sg = cx.const(torch.tensor([float(x) for x in herm_signs], dtype=torch.float64))
+        Vm = rot2(cx.sym("tv", ())) if n == 2 else rot3(cx.sym("qv", (4,)))
+        U = Vm * sg.unsqueeze(-2)
     sig = cx.sym("sig", (r,), positive=True, lo=0.25, hi=2)
     cx.assume(sig[0] > 1e-2)
     for i in range(r - 1):
@@ -104,7 +112,11 @@ def sv(cx, shape=(2, 2), k=None, mode="uppest", method="exacteig"):
         # is_hermitian=False: LinearOperator.m's automatic Hermiticity detection works with torch.allclose's tolerance; a
         # matrix inside that band but not exactly symmetric makes svd use A.A instead of A^T.A (by-design tolerance,
         # excluded here as in C11)
-        u, s, vh = svd(LinearOperator.m(A, is_hermitian=False), k=k, mode=mode, method=method)
+        if herm_signs is not None:
+            Aop = LinearOperator.m(A, is_hermitian=True) if opkind == "dense" else make_classes()[opkind](A, is_hermitian=True)
+        else:
+            Aop = LinearOperator.m(A, is_hermitian=False)
+        u, s, vh = svd(Aop, k=k, mode=mode, method=method)
     cx.claim_true("shapes", tuple(u.shape) == (m, kk) and tuple(s.shape) == (kk,) and tuple(vh.shape) == (kk, n),
                   detail="%s %s %s" % (tuple(u.shape), tuple(s.shape), tuple(vh.shape)))
     want = sig[:kk] if mode.lower() == "lowest" else sig[r - kk:]
@@ -136,10 +148,22 @@ def configs(tier):
         for k, mode in ((None, "uppest"), (1, "lowest"), (1, "uppest"), (2, "lowest")):
             add("svd/%dx%d/k%s/%s" % (shape[0], shape[1], k, mode), sv, shape=shape, k=k, mode=mode)
     add("svd/3x2/k1/lowest/custom_exacteig", sv, shape=(3, 2), k=1, mode="lowest", method="custom_exacteig")
+    # Hermitian-flagged operators with an indefinite spectrum: singular values = magnitudes of the eigenvalues
+    for signs in ((-1, 1), (1, -1), (-1, -1)):
+        for k, mode in ((1, "uppest"), (1, "lowest"), (None, "uppest")):
+            add("svd/herm2x2/signs%s/k%s/%s" % ("".join("m" if x < 0 else "p" for x in signs), k, mode), sv, shape=(2, 2), k=k,
+                mode=mode, herm_signs=signs)
+    add("svd/herm2x2/signsmp/k1/uppest/mvonly", sv, shape=(2, 2), k=1, mode="uppest", herm_signs=(-1, 1), opkind="mvonly")
+    add("svd/herm2x2/signspm/k1/lowest/custom_exacteig", sv, shape=(2, 2), k=1, mode="lowest", herm_signs=(1, -1),
+        method="custom_exacteig")
     if tier == "thorough":
         big = {"budget_s": 1700, "timeout_ms": 60000}
         for method in ("exacteig", "custom_exacteig"):
             for neig, mode in ((3, "lowest"), (2, "uppest"), (1, "lowest")):
                 add("symeig/%s/A/n3/neig%d/%s" % (method, neig, mode), eig, n=3, neig=neig, mode=mode, method=method, opts=big)
             add("symeig/%s/AM/n3/neig2/lowest" % method, eig, n=3, neig=2, mode="lowest", method=method, withM=True, opts=big)
+        for signs in ((-1, 1, -1), (1, -1, -1)):
+            for k, mode in ((1, "uppest"), (2, "lowest")):
+                add("svd/herm3x3/signs%s/k%s/%s" % ("".join("m" if x < 0 else "p" for x in signs), k, mode), sv, shape=(3, 3), k=k,
+                    mode=mode, herm_signs=signs, opts=big)
     return cfgs
